@@ -201,6 +201,18 @@ class AdjGen:
         return e
 
 
+def arrays_of(ir, acc=None):
+    if acc is None:
+        acc = []
+    if isinstance(ir, np.ndarray):
+        if not any(ir is a for a in acc):
+            acc.append(ir)
+    elif isinstance(ir, tuple):
+        for c in ir:
+            arrays_of(c, acc)
+    return acc
+
+
 def count_occurrences(ir, arr):
     if isinstance(ir, np.ndarray):
         return 1 if ir is arr else 0
@@ -598,11 +610,15 @@ def run_case(P, sr, g, res, riders, rng):
             res.count("adjoint:skipped-root-has-free-inputs")
             continue
         ast_leaves = tensor_leaves(expr)
+        p_arrays = arrays_of(P)
+        # a Tensor whose data is none of the program's arrays was made by an executed substitution (indexing / slicing copies the data)
+        foreign = [L for L in ast_leaves if not any(L.data is a for a in p_arrays)]
         for t in leaves:
             arr, names = t[1], t[2]
             occ = [L for L in ast_leaves if L.data is arr]
             # the tape reports adjoints for leaves with alpha-renaming undone: strip the mangling from the names found in the AST
-            if len(occ) != count_occurrences(P, arr):
+            # (several uses of one leaf are one cons-hashed Tensor: the tape accumulates their adjoints under that one key)
+            if not occ or (foreign and len(occ) != count_occurrences(P, arr)):
                 # an executed substitution (e.g. advanced indexing under the optimizer) copied the data into a new leaf: the
                 # tape then reports that occurrence under another key, so the total derivative cannot be read off one entry
                 res.count("adjoint:leaf-copied-by-executed-substitution")
